@@ -203,9 +203,13 @@ pub fn files_of(req: &Sx) -> Vec<(String, String)> {
     req.as_list()[3].as_list().iter().map(|f| (f.as_list()[0].as_str().to_string(), f.as_list()[1].as_str().to_string())).collect()
 }
 pub fn settings_of(req: &Sx) -> (Vec<String>, Vec<String>) {
-    let mut s = vec![];
-    let mut n = vec![];
+    // the formats the harness registers on the JavaScript side (mode_rt.mjs registerFormats) are always known to the compiler
+    let mut s: Vec<String> = ["fa", "fb", "fab"].iter().map(|x| x.to_string()).collect();
+    let mut n: Vec<String> = ["n2", "n3"].iter().map(|x| x.to_string()).collect();
     if let Some(x) = req.as_list().get(5) {
+        if !matches!(x, Sx::List(_)) {
+            return (s, n);
+        }
         for part in &x.as_list()[1..] {
             let l = part.as_list();
             let names: Vec<String> = l[1..].iter().map(|a| a.as_str().to_string()).collect();
